@@ -1,5 +1,6 @@
 import io
 import os
+import threading
 
 from . import reduction
 from . import context
@@ -33,6 +34,7 @@ class Popen(popen_fork.Popen):
 
     def __init__(self, process_obj):
         self._fds = []
+        self._status_lock = threading.Lock()
         super().__init__(process_obj)
 
     def duplicate_for_child(self, fd):
@@ -60,9 +62,16 @@ class Popen(popen_fork.Popen):
             timeout = 0 if flag == os.WNOHANG else None
             if not wait([self.sentinel], timeout):
                 return None
-            try:
-                self.returncode = forkserver.read_unsigned(self.sentinel)
-            except (OSError, EOFError):
-                # The process ended abnormally perhaps because of a signal
-                self.returncode = 255
+            # the status can be read from the sentinel only once: a second
+            # thread polling the same process must not take the end of file
+            # it finds there for an abnormal end and overwrite the status.
+            with self._status_lock:
+                if self.returncode is None:
+                    try:
+                        self.returncode = forkserver.read_unsigned(
+                            self.sentinel)
+                    except (OSError, EOFError):
+                        # The process ended abnormally perhaps because of
+                        # a signal
+                        self.returncode = 255
         return self.returncode
